@@ -3,7 +3,7 @@
     [Print Assumptions]. *)
 From Coq Require Import List ZArith.
 From Webp Require Import Anim.Blend Anim.Canvas Anim.AnimDec Anim.AnimEncModel Anim.AnimEncSpec
-  Anim.AnimEncLemmas Anim.AnimEncProofs Anim.AnimEncMain Anim.AnimEncWitness Anim.AnimEncLoops.
+  Anim.AnimEncLemmas Anim.AnimEncProofs Anim.AnimEncMain Anim.AnimEncWitness Anim.AnimEncLoops Anim.AnimDecProof Anim.AnimDecLoops.
 From WebpGen Require Consts.
 Import ListNotations.
 Open Scope Z_scope.
@@ -57,6 +57,19 @@ Theorem C08_find_changed_rect_loops_eq : forall W H prev curr,
   0 <= W -> find_changed_rect_loops W H prev curr = find_changed_rect W H prev curr.
 Proof. exact find_changed_rect_loops_eq. Qed.
 Print Assumptions C08_find_changed_rect_loops_eq.
+
+(** The dispose-to-background simulation of encodeSubFrame (fillRect on a copy of the
+    previous canvas) as the nested loops the code runs equals the pointwise [fill_impl]
+    of the model (shared with the decoder, Anim/AnimDecLoops.v). *)
+Theorem C08_dispose_fill_loops_eq : forall W H c r,
+  wf_dims W H -> length c = Z.to_nat (W * H) -> fill_loops W H c r = fill_impl W H c r.
+Proof. exact fill_loops_eq. Qed.
+Print Assumptions C08_dispose_fill_loops_eq.
+
+(** isCanvasIdentical: the pixel-by-pixel scan with early exit decides equality. *)
+Theorem C08_canvas_identical_scan : forall a b, canvas_eqb a b = true <-> a = b.
+Proof. exact canvas_eqb_eq. Qed.
+Print Assumptions C08_canvas_identical_scan.
 
 (** snapToEven + clipping: still inside the canvas, non-empty, covers the changed
     rectangle, and both offsets are even (so that the container's halved offsets
@@ -122,6 +135,40 @@ Theorem C08_example_failed_addframe :
 Proof. exact w4_kept. Qed.
 Print Assumptions C08_example_failed_addframe.
 
+(** Histories that mix AddFrame with pre-encoded frames (AddRawFrame: a VP8L bitstream
+    given by the picture it was encoded from, an even offset inside the canvas, blend,
+    dispose, duration), with failing encoder calls and the muxer frame limit as above:
+    the file plays back the reference show [ref_show] of the accepted calls (an AddFrame
+    picture is the whole canvas; a raw frame is composited by the container rules), outside
+    the class of the known finding raw-frames:canvas-size ([lone_small_raw_ok]). *)
+Theorem C08_anim_mixed_roundtrip :
+  forall (rt_ll rt_ly : img -> img) (W H : Z) (opts : eopts) (ops : list op)
+         (oracle : nat -> orc) (fails : nat -> efail) (maxf : Z) (has_meta simple : bool)
+         (st0 stf : est) (acc : list op) (out : output),
+    codec_lossless rt_ll ->
+    wf_canvas_dims W H -> lossless_opts opts -> Forall (AnimEncSpec.wf_op W H) ops ->
+    new_encoder W H opts = Some st0 ->
+    run_ops repaired maxf oracle fails st0 ops = (stf, acc) ->
+    (true = true -> lone_small_raw_ok W H has_meta acc) ->
+    close has_meta simple stf = Some out ->
+    same_show W H (eo_loop opts) out (playback rt_ll rt_ly repaired out)
+              (ref_show W H (blank W H, None) acc).
+Proof. exact anim_mixed_roundtrip. Qed.
+Print Assumptions C08_anim_mixed_roundtrip.
+
+(** Without that hypothesis the statement is false (known finding raw-frames:canvas-size):
+    a single 1x1 pre-encoded frame of duration 0 on a 4x2 canvas is written as a simple
+    file whose canvas is 1x1. *)
+Theorem C08_anim_mixed_roundtrip_refuted_lone_small_raw : ~ anim_mixed_roundtrip_statement false.
+Proof. exact anim_mixed_roundtrip_refuted_lone_small_raw. Qed.
+Print Assumptions C08_anim_mixed_roundtrip_refuted_lone_small_raw.
+
+Theorem C08_example_mixed_history :
+  w6_show = Some ([([R;R;R;R; R;R;R;R], 10); ([R;R;G;G; R;R;G;G], 20); ([R;R;T;R; R;R;R;G], 30)],
+                  [([R;R;R;R; R;R;R;R], 10); ([R;R;G;G; R;R;G;G], 20); ([R;R;T;R; R;R;R;G], 30)]).
+Proof. exact w6_mixed_history_plays_the_reference_show. Qed.
+Print Assumptions C08_example_mixed_history.
+
 (** Tie to the source: the limits the model uses are the constants of the code
     (regenerated on every run). *)
 Theorem C08_limits_match_source :
@@ -129,6 +176,7 @@ Theorem C08_limits_match_source :
   max_loop_count = WebpGen.Consts.animation_maxLoopCount /\
   max_canvas_dimension = WebpGen.Consts.animation_maxCanvasDimension /\
   max_duration = WebpGen.Consts.mux_maxDuration /\
-  max_frames = WebpGen.Consts.container_MaxFrames.
+  max_frames = WebpGen.Consts.container_MaxFrames /\
+  max_position_off = WebpGen.Consts.container_MaxPositionOff.
 Proof. repeat split; reflexivity. Qed.
 Print Assumptions C08_limits_match_source.
